@@ -174,7 +174,7 @@ def repair(n, raw):
 # Hypothesis strategies
 
 _K = [1, 2, 2, 0, 1, 2]
-MODES = ["uniform", "local", "motif", "structured", "dense", "compose", "compose", "nests"]
+MODES = ["uniform", "local", "motif", "structured", "dense", "compose", "compose", "nests", "wide"]
 
 _LIB = None
 
@@ -285,6 +285,8 @@ def closed_cfgs(draw, max_n=14, min_n=3, modes=MODES):
         return draw(composed_cfgs(max_n))
     if mode == "nests":
         return draw(nest_cfgs())
+    if mode == "wide":
+        return draw(wide_loop_cfgs())
     n = draw(st.integers(min_n, max_n))
     raw = {i: [] for i in range(n)}
     # spanning skeleton: every block gets a predecessor among earlier blocks
@@ -417,6 +419,92 @@ def contract(g, keep=()):
     order = sorted(g)
     ren = {o: i for i, o in enumerate(order)}
     return repair(len(order), {ren[u]: [ren[t] for t in g[u]] for u in order})
+
+
+@st.composite
+def wide_loop_cfgs(draw):
+    """one loop with 3-5 headers AND 3-5 distinct exits: a binary dispatch tree delivers 3-7 entry arcs to the headers
+    (some header is entered by two arcs), the loop is a ring through the headers and up to 3 more blocks, exits leave
+    from headers and other ring blocks to distinct exit blocks that return, meet in a join or chain into one another"""
+    raw = {}
+    nxt = [0]
+
+    def new():
+        nxt[0] += 1
+        return nxt[0] - 1
+
+    if draw(st.integers(0, 2)) == 0:
+        # acyclic variant: a dispatch tree whose 4-8 arcs (some directly from a branching block: empty arms) enter a
+        # chain of 4-6 tail blocks at different points - a branch tail with many headers
+        m = draw(st.integers(4, 6))
+        arcs = draw(st.integers(4, 8))
+        root = new()
+        chain = [new() for _ in range(m)]
+        tg = [draw(st.sampled_from(chain)) for _ in range(arcs)]
+
+        def tree0(ts):
+            if len(ts) == 1:
+                if draw(st.integers(0, 2)) == 0:
+                    return ts[0]  # empty arm: the arc comes straight from the branching block
+                me = new()
+                raw[me] = [ts[0]]
+                return me
+            me = new()
+            mid = len(ts) // 2
+            a, b = tree0(ts[:mid]), tree0(ts[mid:])
+            raw[me] = [a, b] if a != b else [a]
+            return me
+
+        mid = len(tg) // 2
+        a, b = tree0(tg[:mid]), tree0(tg[mid:])
+        raw[root] = [a, b] if a != b else [a]
+        for i, t_ in enumerate(chain):
+            raw[t_] = [chain[i + 1]] if i + 1 < m else []
+            if i + 2 < m and draw(st.integers(0, 3)) == 0:
+                raw[t_].append(chain[draw(st.integers(i + 2, m - 1))])
+        return repair(nxt[0], raw)
+    h = draw(st.integers(3, 5))
+    x = draw(st.integers(3, 5))
+    extra = draw(st.integers(0, 3))
+    arcs = draw(st.integers(h, h + 2))
+
+    root = new()
+    ring = [new() for _ in range(h + extra)]
+    headers = draw(st.permutations(ring))[:h]
+    exits = [new() for _ in range(x)]
+    join = new()
+    targets = list(headers) + [draw(st.sampled_from(headers)) for _ in range(arcs - h)]
+    targets = draw(st.permutations(targets))
+
+    def tree(ts):
+        if len(ts) == 1:
+            return ts[0]
+        me = new()
+        mid = len(ts) // 2
+        a, b = tree(ts[:mid]), tree(ts[mid:])
+        raw[me] = [a, b] if a != b else [a]
+        return me
+
+    if len(targets) == 1:
+        raw[root] = [targets[0]]
+    else:
+        mid = len(targets) // 2
+        a, b = tree(list(targets[:mid])), tree(list(targets[mid:]))
+        raw[root] = [a, b] if a != b else [a]
+    for i, r in enumerate(ring):
+        raw[r] = [ring[(i + 1) % len(ring)]]
+    hosts = draw(st.permutations(ring))
+    for j, e in enumerate(exits):
+        hst = hosts[j % len(hosts)]
+        if len(raw[hst]) < 2:
+            if draw(st.booleans()):
+                raw[hst].append(e)
+            else:
+                raw[hst].insert(0, e)
+        k = draw(st.integers(0, 3))
+        raw[e] = [] if k == 0 else [join] if k in (1, 2) else [exits[(j + 1) % x]]
+    raw[join] = []
+    return repair(nxt[0], raw)
 
 
 @st.composite
